@@ -306,6 +306,18 @@ func (t *Tracer) hook(ev string, l interface{}, a, b int) {
 		}
 	case "next":
 		t.nexts++
+		// the zero item (receive on the closed channel) is counted for the spin
+		// sentinel whatever the protocol mirror thinks of the event order: that
+		// does not depend on how the channel is buffered
+		if a == itInvalid {
+			p.zeros++
+			if p.zeros > t.zerosMax {
+				t.zerosMax = p.zeros
+			}
+			if t.sentinel && p.zeros > zeroLimit {
+				spin = parserFrame()
+			}
+		}
 		switch {
 		case p.drained:
 			t.note("next-after-drain")
@@ -317,13 +329,6 @@ func (t *Tracer) hook(ev string, l interface{}, a, b int) {
 		default:
 			if a != itInvalid || p.ph != 2 {
 				t.note("zero-item-not-allowed")
-			}
-			p.zeros++
-			if p.zeros > t.zerosMax {
-				t.zerosMax = p.zeros
-			}
-			if t.sentinel && p.zeros > zeroLimit {
-				spin = parserFrame()
 			}
 		}
 		if t.keep && p.zeros <= 8 {
@@ -402,6 +407,21 @@ func (t *Tracer) Snapshot() (steps, nexts, zeros, lexers int, anomalies []string
 	defer t.mu.Unlock()
 	return t.steps, t.nexts, t.zerosMax, t.nlex, append([]string(nil), t.anomaly...),
 		append([]LeakInfo(nil), t.leaks...), t.events, t.returned
+}
+
+// OpenScanners is the buffering-independent hook observation of C18: the
+// number of scanners of this process (of the current and of all earlier
+// entry-point calls) that have logged a step and not yet their close event.
+func (t *Tracer) OpenScanners() int {
+	t.mu.Lock()
+	defer t.mu.Unlock()
+	n := len(t.foreign)
+	for l, x := range t.lexers {
+		if !t.foreign[l] && x-1 < len(t.protos) && t.protos[x-1].ph != 2 {
+			n++
+		}
+	}
+	return n
 }
 
 // Edges returns the (fn|class|fn') transitions observed so far in this process.
